@@ -309,13 +309,18 @@ def run(prog, ctx):
               "raise_lmax no longer adds `value` to self.lmax[d]")
 
     # ------------------------------------------------------------------ D5
-    for cache in ("subtraction_value_cache", "max_level_dict"):
+    # the per-step caches: the two of the pinned tree plus every other attribute the constructor starts as an empty dict
+    KNOWN_CACHES = ("subtraction_value_cache", "max_level_dict")
+    found = [s.attr for s in R.self_stores(sd.methods["__init__"]) if s.kind == "plain" and isinstance(s.value, ast.Dict) and not s.value.keys]
+    for cache in list(KNOWN_CACHES) + sorted(set(found) - set(KNOWN_CACHES)):
         sts = [s for s in R.self_stores(rp, cache) if s.kind == "plain" and isinstance(s.value, ast.Dict) and not s.value.keys]
         ok = bool(sts) and any(crp.post_dominates(R.cfg_node(rp, s.stmt), crp.entry) for s in sts)
         ctx.check(ok, "C03.D5", R.key_of(rp, "reset:%s" % cache), rp.loc(sts[0].stmt) if sts else rp.loc(),
                   "%s is re-assigned an empty dict in every post-processing" % cache,
                   "%s (keyed by container positions) is not reset on every path of refinement_postprocessing: entries computed for the "
                   "old interval positions survive the structural change" % cache)
+        if cache not in KNOWN_CACHES:
+            continue
         writers = set()
         for fi in prog.functions.values():
             for s in R.attribute_stores(fi.node):
